@@ -23,7 +23,7 @@ Holds(dests, p) == \E j \in DOMAIN dests : dests[j].path = p
 At(dests, p) == dests[CHOOSE j \in DOMAIN dests : dests[j].path = p]
 Same(d1, d2, p) == (Holds(d1, p) = Holds(d2, p)) /\ (Holds(d1, p) => At(d1, p) = At(d2, p))
 Me == ToString(i + 1)
-FreshAnywhere(dests) == \E j \in DOMAIN dests : dests[j].run = Me
+FreshAnywhere(dests) == \E j \in DOMAIN dests : dests[j].path \in Paths /\ dests[j].run = Me
 \* after a failed invocation a destination is either what it was before or gone: anything else is a fresh file
 \* (an empty or truncated one, a re-stamped old one) that a consumer would take for this run's output
 FreshFile(prev, now) == \E p \in Paths : Holds(now, p) /\ ~(Holds(prev, p) /\ At(prev, p) = At(now, p))
